@@ -64,7 +64,8 @@ LEVEL = "proof"
 THEOREMS = ["C06_gc_race_safe", "C06_swept_only_abandoned", "C06_unswept_marker_kept", "C06_marker_kernel", "C06_delete_kernel",
             "C06_unmarked_adoption_refuted",
             "C06_tx_markers_cover_payload", "C06_tx_markers_cover_payload_kernels", "C06_dropping_retry_refuted",
-            "C06_dropped_marker_loses_file"]
+            "C06_dropped_marker_loses_file",
+            "C06_marker_key_injective", "C06_basename_marker_collision_refuted"]
 REQ = ["DS.Model.GCRace"]
 REQ_LEDGER = ["DS.Gen.GenTxMarkers", "DS.Model.TxMarkers"]
 MANIFEST_ENTRY = {
@@ -80,16 +81,24 @@ MANIFEST_ENTRY = {
                   "in progress, any number of lost OCC attempts and retries) covers everything it is going to publish at every step up to "
                   "the flip, over kernels regenerated from transaction.py (GenTxMarkers.v: who grows / drops the marker list, what the "
                   "retry arm of commit reaches); C06_dropping_retry_refuted: a retry arm that drops markers publishes an unmarked file; "
+                  "C06_marker_key_injective: the machines give every file its OWN marker, which is a fact about the code iff the marker key "
+                  "_register_inflight writes is injective in the file's table-relative path -- proved of the function REGENERATED from "
+                  "transaction.py (GenNorm.v register_marker_path); C06_basename_marker_collision_refuted: with the key made from the basename "
+                  "(the unchanged library, written down by hand) two accepted files share one marker, the second is adopted unmarked; "
                   "the real collector and real transactions run under the deterministic scheduler in virtual time and their "
                   "storage log must be accepted by the model's strict run (markers before metadata; marker deletions only as the "
                   "regenerated kernel allows); an implementation-only oracle re-reads every retained snapshot",
-    "level_note": "trusted: Coq kernel; translator/gen_gcrace.py, translator/gen_txmarkers.py (fail-closed; the latter classifies uses of "
+    "level_note": "NOT proved (second audit F2-F4, open): the machine's TAdopt is enabled only while no run is announced, whereas the code ignores "
+                  "an announcement older than its grace period (equivalent under the proviso 'run shorter than grace' only); gen_retry_arm_drops "
+                  "inspects the else-arm of the conflict handler only; the order marker / announcement check / existence re-check inside "
+                  "_protect_adopted_files is modelled by hand; markers-before-metadata is hard-wired in GCRace.v (MARKERS_FIRST is used by GC.v only); "
+                  "trusted: Coq kernel; translator/gen_gcrace.py, translator/gen_txmarkers.py, translator/gen_norm.py (fail-closed; the latter classifies uses of "
                   "self._inflight_markers syntactically and over-approximates reachability by every self.<method> mentioned); scheduler harness with virtual clock and virtual "
                   "modification times; transactions younger than the 24 h abandonment window (older ones are traced against the "
                   "model but not judged: the code deliberately stops protecting them)",
     "technique": "Coq invariant proof over a collector x transactions machine stated over regenerated collector kernels + "
                  "scheduled trace validation in virtual time (clock jumps at every point of a transaction, two collection runs, "
-                 "adoption of old pre-built files at every point of a run; adopting / writing+adopting committers that lose the OCC race, "
+                 "adoption of old pre-built files at every point of a run -- also several per transaction and one each in two transactions, in sub-directories of data/ with equal basenames; adopting / writing+adopting committers that lose the OCC race, "
                  "collector at every step of the retry) + per-transaction marker-ledger trace validation",
     "design_ref": "DESIGN.md section 5 C06",
 }
@@ -937,7 +946,7 @@ def run(ctx) -> None:
                          "translator/gen_txmarkers.py (marker-list kernels regenerated from transaction.py, fail-closed)"]
     ctx.assumptions += ["collection run shorter than the grace period (runs violating the proviso are not judged)",
                         "markers younger than the abandonment window (runs with an older marker at a marker load are not judged)"]
-    ctx.proofs(THEOREMS, gen_files=["GenGCRace.v", "GenTxMarkers.v"])
+    ctx.proofs(THEOREMS, gen_files=["GenGCRace.v", "GenTxMarkers.v", "GenNorm.v"])
     ctx.allow_axioms([])
     quick = ctx.tier == "quick"
     exprs, metas, bad = [], [], []
